@@ -81,6 +81,8 @@ let parse_ops toks = List.map (fun t ->
   let upper = c >= 'A' && c <= 'Z' in
   let o = match Char.lowercase_ascii c with
     | 'v' -> OValue | 'a' -> OAdvance | 'r' -> OReset | 'c' -> OClone | 'k' -> OConsume | 'w' -> OWalk | 's' -> OString
+    | 'y' -> OKey | 'q' -> OKeyN | 'x' -> OVec | 'o' -> OVecN | 'u' -> OUint | 'j' -> OWalkK | 'l' -> OWalkV
+    | 'm' -> OMeta | 'z' -> OSkip
     | _ -> failwith ("bad op " ^ t) in
   (o, upper)) toks
 
@@ -89,7 +91,33 @@ let wend_m e = match e with WLimit -> "L" | WNoValue -> "N" | WConvErr c -> "E" 
 let wend_s e = match e with WLimit -> "L" | WNoValue -> "N" | WConvErr _ -> "E" | WAdvErr _ -> "e" | WDone -> "Z"
 let join l = if l = [] then "-" else String.concat "," l
 
-let show_m strkind o = match o with
+let hexb b = hex_of_bytes b
+let show_meta strkind r =
+  let c = Array.of_list (List.map zs r.mr_codes) in
+  let head = Printf.sprintf "M:%s:%s/%s:%s/1:%s:%s" c.(0) c.(1) (hexb r.mr_fmt) c.(2) c.(3) c.(4) in
+  if strkind then Printf.sprintf "%s:%s:%s:%s:%s" head c.(5) c.(6) c.(7) c.(8)
+  else begin
+    let same k = if int_of_string c.(k) < 0 then c.(k) ^ "/-1" else c.(k) ^ "/1" in
+    let vec k = if int_of_string c.(k) < 0 then c.(k) ^ "/-" else
+      c.(k) ^ "/" ^ (match r.mr_vec with Some b -> hexb b | None -> "null/0") in
+    let str = if int_of_string c.(12) < 0 then c.(12) ^ "/-" else
+      c.(12) ^ "/" ^ (match r.mr_str with MNull -> "null" | MStr b -> hexb b | MOpen b -> "open:" ^ hexb b) in
+    Printf.sprintf "%s:%s:%s:%s:%s:%s:%s:%s:%s:%s" head (same 5) c.(6) (same 7) c.(8) (vec 9) (vec 10) c.(11) str c.(13)
+  end
+let show_m strkind (op, _) o = match o with
+  | OutB (c, b) ->
+    let pre = (if op = OKey then "Y" else "X") in
+    (match b with
+     | Some b when int_of_z c >= 0 -> pre ^ ":" ^ zs c ^ ":" ^ hexb b
+     | None when int_of_z c >= 0 -> pre ^ ":" ^ zs c ^ ":null"
+     | _ -> pre ^ ":" ^ zs c)
+  | OutC c -> (if op = OKeyN then "Yn" else "Xn") ^ ":" ^ zs c
+  | OutU (c, v) -> if int_of_z c < 0 then "G:" ^ zs c else
+      "G:" ^ zs c ^ ":" ^ (match v with Some n -> string_of_int (int_of_n n) | None -> "unset")
+  | OutWB (l, e) -> Printf.sprintf "%s:%d:%s:%s" (if op = OWalkK then "J" else "H") (List.length l) (wend_m e)
+                      (join (List.map hexb l))
+  | OutM r -> show_meta strkind r
+  | OutZ c -> "Z:" ^ zs c
   | OutV VNone -> "N"
   | OutV (VErr c) -> "E:" ^ zs c
   | OutV (VNum (c, v)) -> if strkind then "V:" ^ zs c ^ ":" ^ opt_dbl v else "V:" ^ opt_dbl v
@@ -117,7 +145,17 @@ let show_elem e = match e with
   | EV v -> "V:" ^ bits_tok v | EUnset -> "V:unset" | EErr _ -> "E"
   | ES b -> "V:s:" ^ hex_of_bytes b | EVec b -> "V:v:" ^ hex_of_bytes b
 let elem_bits e = match e with EV v -> bits_tok v | EUnset -> "unset" | _ -> "?"
-let show_s cf o = match o with
+let elem_hex e = match e with ES b | EVec b -> hexb b | _ -> "?"
+let show_s cf (op, _) o = match op, o with
+  | (OKey | OVec), SoV (Some (EErr _), _) -> (if op = OKey then "Y" else "X") ^ ":-"
+  | (OKey | OVec), SoV (Some e, _) -> (if op = OKey then "Y" else "X") ^ ":" ^ elem_hex e
+  | (OKeyN | OVecN), SoV (Some (EErr _), _) -> (if op = OKeyN then "Yn" else "Xn") ^ ":-"
+  | (OKeyN | OVecN), SoV (Some _, _) -> (if op = OKeyN then "Yn" else "Xn") ^ ":+"
+  | (OWalkK | OWalkV), SoW (l, e) -> Printf.sprintf "%s:%d:%s:%s" (if op = OWalkK then "J" else "H") (List.length l) (wend_s e)
+                                       (join (List.map elem_hex l))
+  | _, SoZ (ARefused, _) -> "Z:-" | _, SoZ (ANotMore, _) -> "Z:<=0"
+  | _, SoZ (_, true) -> "Z:+" | _, SoZ (_, false) -> "Z:0"
+  | _ -> match o with
   | SoV (None, _) -> "N"
   | SoV (Some e, idx) -> show_elem e ^ (match e with EV (Fin _) -> annot cf idx | _ -> "")
   | SoA AMore -> "A:+" | SoA AEnd -> "A:0" | SoA ARefused -> "A:-" | SoA ANotMore -> "A:<=0"
@@ -128,6 +166,21 @@ let show_s cf o = match o with
   | SoW (l, e) -> Printf.sprintf "W:%d:%s:%s" (List.length l) (wend_s e) (join (List.map elem_bits l))
   | SoOpen -> "*"
   | SoNone -> "-"
+
+(* specification tokens of a history; a text iterator is specified for one way of reading its elements *)
+let spec_tokens strkind src ops cf =
+  let has l = List.exists (fun (o, _) -> List.mem o l) ops in
+  let rnum = has [OValue; OConsume; OWalk] and rkey = has [OKey; OKeyN; OWalkK]
+  and rvec = has [OVec; OVecN; OWalkV] and rmix = has [OUint] in
+  let nmodes = List.length (List.filter (fun b -> b) [rnum; rkey; rvec]) in
+  let mixed = strkind && (rmix || nmodes > 1) in
+  let cst = match src with
+    | Some (SStr m) when rkey -> Some (abs_key m)
+    | Some (SStr m) when rvec -> Some (abs_vec m)
+    | Some s -> Some (abs0 s)
+    | None -> None in
+  let so = srun rnd64 (cst, None) ops in
+  List.map2 (fun o x -> if mixed then "*" else show_s cf o x) ops so
 
 let () =
   let ic = open_in Sys.argv.(1) in
@@ -166,9 +219,44 @@ let () =
                 let c0 = if src = None then "C:0" else "C:1" in
                 let mo = mrun rnd64 (src, None) ops in
                 let so = srun rnd64 ((match src with Some s -> Some (abs0 s) | None -> None), None) ops in
-                Printf.printf "M %s %s\n" id (String.concat " " (c0 :: u :: List.map (show_m false) mo));
-                Printf.printf "S %s %s\n" id (String.concat " " (c0 :: "*" :: List.map (show_s None) so)))
+                Printf.printf "M %s %s\n" id (String.concat " " (c0 :: u :: List.map2 (show_m false) ops mo));
+                Printf.printf "S %s %s\n" id (String.concat " " (c0 :: "*" :: List.map2 (show_s None) ops so)))
            | _ -> failwith "arg")
+        end else if kind = "rset" then begin
+          let sent7 = fv_of_float 7.0 and sent9 = fv_of_float 9.0 in
+          let ops = parse_ops ops in
+          let fin ret mn mx rest_m rest_s =
+            let t = Printf.sprintf "RS:%s:%s:%s" (zs ret) (bits_tok mn) (bits_tok mx) in
+            Printf.printf "M %s %s\n" id (String.concat " " (t :: rest_m));
+            Printf.printf "S %s %s\n" id (String.concat " " (t :: rest_s)) in
+          (match String.split_on_char ';' arg with
+           | ["it"; sk; txt] ->
+             let t = text_of txt orc in
+             let strk = (sk.[0] = 's') in
+             let source = if strk then Some (SStr (mk_string t)) else build rnd64 (PVals (t, O)) in
+             (match source with
+              | None ->
+                (* no source: the value holds a null iterator pointer *)
+                let ((ret, mn), mx) = range_set_val RSNoIter sent7 sent9 in
+                fin ret mn mx (List.map (fun _ -> "-") ops) (List.map (fun _ -> "-") ops)
+              | Some s0 ->
+                let (((ret, mn), mx), s1) = range_set rnd64 s0 sent7 sent9 in
+                let (v, s1) = it_value rnd64 s1 in     (* the harness reads the next value of the source *)
+                let u = "U:" ^ (match v with
+                  | VNone -> "N" | VErr c -> "E" ^ zs c | VNum (_, x) -> opt_dbl x | _ -> "?") in
+                let mo = mrun rnd64 (Some s1, None) ops in
+                fin ret mn mx (u :: List.map2 (show_m strk) ops mo) ("*" :: spec_tokens strk (Some s1) ops None))
+           | _ ->
+             let a = (match String.split_on_char ';' arg with
+               | ["itn"] -> RSNoIter
+               | ["vec"; bytes; ds] ->
+                 let l = if ds = "-" then [] else List.map fv_of_tok (String.split_on_char ',' ds) in
+                 RSVec (n_of_int (int_of_string bytes), Some l)
+               | ["vecb"; bytes] -> RSVec (n_of_int (int_of_string bytes), None)
+               | ["vecn"] -> RSVecNull
+               | _ -> RSOther) in
+             let ((ret, mn), mx) = range_set_val a sent7 sent9 in
+             fin ret mn mx (List.map (fun _ -> "-") ops) (List.map (fun _ -> "-") ops))
         end else begin
           let split2 s = match String.split_on_char ';' s with [a; b] -> (a, b) | _ -> failwith "arg" in
           let desc = match kind with
@@ -182,7 +270,11 @@ let () =
             | "profile" -> let (t, g) = split2 arg in parse_profile (grid_of g) (topt t orc)
             | _ -> None in
           let src = match kind with
-            | "string" -> Some (SStr (mk_string (if arg = "n" then text_of "-" "-" else text_of arg orc)))
+            | "string" -> Some (SStr (if arg = "n" then mk_string_sep [] (text_of "-" "-") else mk_string (text_of arg orc)))
+            | "strsep" ->
+              let (sp, tx) = split2 arg in
+              Some (SStr (if tx = "n" then mk_string_sep [] (text_of "-" "-")
+                          else mk_string_sep (if sp = "n" then default_sep else bytes_of_hex sp) (text_of tx orc)))
             | "buffer" | "args" ->
               Some (SBuf (mk_buffer (if arg = "n" then None else Some (bytes_of_hex arg)) (kind = "args")))
             | _ -> (match desc with Some d -> build rnd64 d | None -> None) in
@@ -201,13 +293,11 @@ let () =
                | _ -> None)
             | _ -> None in
           let ops = parse_ops ops in
-          let strkind = (kind = "string") and bufkind = (kind = "buffer" || kind = "args") in
+          let strkind = (kind = "string" || kind = "strsep") in
           let c0 = if src = None then "C:0" else "C:1" in
           let mo = mrun rnd64 (src, None) ops in
-          let so = srun rnd64 ((match src with Some s -> Some (abs0 s) | None -> None), None) ops in
-          let so_t = List.map2 (fun (o, _) x ->
-            if bufkind && (o = OConsume || o = OWalk || o = OString) then "-" else show_s cf x) ops so in
-          Printf.printf "M %s %s\n" id (String.concat " " (c0 :: List.map (show_m strkind) mo));
+          let so_t = spec_tokens strkind src ops cf in
+          Printf.printf "M %s %s\n" id (String.concat " " (c0 :: List.map2 (show_m strkind) ops mo));
           Printf.printf "S %s %s\n" id (String.concat " " (c0 :: so_t))
         end
       with e -> Printf.printf "M %s X:%s\nS %s X\n" id (String.escaped (Printexc.to_string e)) id)
